@@ -1,5 +1,5 @@
 #include "contract.h"
-size_t e_dl, e_rp, e_bufsz, e_add, e_max, e_tcap; int e_st, e_ext; unsigned char e_buf[8];
+size_t e_dl, e_rp, e_bufsz, e_add, e_max, e_tcap, e_vlen, e_isz; int e_st, e_ext; unsigned char e_buf[32], e_v[32];
 int g_throw, g_debug, g_vec_alloc; unsigned g_errors, g_error_bits; size_t g_alloc_bytes;
 size_t g_mw;
 size_t nondet_size_t(void); int nondet_int(void);
@@ -11,7 +11,16 @@ void h_expand(void) {
   if (r) __CPROVER_assert(0, "canary: expand_output_buffer can succeed");
   if (!r) __CPROVER_assert(0, "canary: expand_output_buffer can refuse");
 }
+#define SMALL(x, n) __CPROVER_assume((x) <= (n))
 #define MS_H(SUF, T) \
+void hs_write_object_##SUF(void) { size_t *st; unsigned char *buf; T *t; g_mw = nondet_size_t(); size_t b = nondet_size_t(), m = nondet_size_t(); SMALL(b, 32); SMALL(m, 64); \
+  k_write_object_##SUF(st, buf, b, m, t); } \
+void hs_read_object_##SUF(void) { size_t *st; unsigned char *buf; T *t; g_mw = nondet_size_t(); size_t b = nondet_size_t(); SMALL(b, 32); \
+  k_read_object_##SUF(st, buf, b, nondet_int(), t); } \
+void hs_write_vector_##SUF(void) { size_t *st; unsigned char *buf; T *v; g_mw = nondet_size_t(); size_t b = nondet_size_t(), m = nondet_size_t(), n = nondet_size_t(); SMALL(b, 32); SMALL(m, 64); SMALL(n, 3); \
+  k_write_vector_##SUF(st, buf, b, m, v, n); } \
+void hs_read_vector_##SUF(void) { size_t *st; unsigned char *buf; T *v; size_t *vlen; g_mw = nondet_size_t(); size_t b = nondet_size_t(), vc = nondet_size_t(); SMALL(b, 32); SMALL(vc, 3); \
+  k_read_vector_##SUF(st, buf, b, nondet_int(), v, vlen, vc); } \
 void h_write_object_##SUF(void) { size_t *st; unsigned char *buf; T *t; g_mw = nondet_size_t(); \
   k_write_object_##SUF(st, buf, nondet_size_t(), nondet_size_t(), t); \
   __CPROVER_assert(0, "canary: write_object returns"); } \
@@ -27,3 +36,49 @@ void h_read_vector_##SUF(void) { size_t *st; unsigned char *buf; T *v; size_t *v
 MS_H(u64, unsigned long)
 MS_H(i32, int)
 MS_H(u8, unsigned char)
+
+/* ---- lemma harnesses (F): only contract-replaced calls; what is written is read back ---- */
+#include <stdlib.h>
+#define MS_LEMMA(SUF, T) \
+void h_rt_vector_##SUF(void) { \
+  size_t bufsz = nondet_size_t(), n = nondet_size_t(), maxlen = nondet_size_t(), wcap = nondet_size_t(); \
+  __CPROVER_assume(bufsz <= SZMAX && n <= SZMAX / sizeof(T) && wcap <= SZMAX / sizeof(T)); \
+  size_t *st = malloc(4 * sizeof(size_t)); unsigned char *buf = malloc(bufsz); T *v = malloc(n * sizeof(T)); \
+  T *w = malloc(wcap * sizeof(T)); size_t *wlen = malloc(sizeof(size_t)); \
+  __CPROVER_assume(st && buf && v && w && wlen); \
+  g_mw = nondet_size_t(); g_throw = 0; \
+  st[0] = nondet_size_t(); st[1] = nondet_size_t(); st[2] = GOOD; st[3] = st[0]; *wlen = nondet_size_t(); \
+  __CPROVER_assume(WF_W(st, bufsz) && st[3] + 8 + n * sizeof(T) <= bufsz && *wlen <= wcap); \
+  size_t start = st[0]; \
+  k_write_vector_##SUF(st, buf, bufsz, maxlen, v, n); \
+  if (st[2] == GOOD) { \
+    __CPROVER_assert(st[0] == start + 8 + n * sizeof(T), "lemma: a successful write_vector advances the stream by 8 + n*sizeof(T)"); \
+    st[1] = start;            /* read back what was just written (seekg to its start) */ \
+    T *r = k_read_vector_##SUF(st, buf, bufsz, 0, w, wlen, wcap); \
+    __CPROVER_assert(st[2] == GOOD, "lemma: reading back a written vector succeeds"); \
+    __CPROVER_assert(*wlen == n, "lemma: the vector read back has the length written"); \
+    __CPROVER_assert(st[1] == st[0], "lemma: reading back consumes exactly what was written"); \
+    __CPROVER_assert(!(g_mw < n * sizeof(T)) || ((unsigned char *)r)[g_mw] == ((unsigned char *)v)[g_mw], "lemma: every byte of the vector read back equals the byte written"); \
+    __CPROVER_assert(0, "canary: round trip reachable"); \
+  } \
+} \
+void h_rt_object_##SUF(void) { \
+  size_t bufsz = nondet_size_t(), maxlen = nondet_size_t(); \
+  __CPROVER_assume(bufsz <= SZMAX); \
+  size_t *st = malloc(4 * sizeof(size_t)); unsigned char *buf = malloc(bufsz); T *t = malloc(sizeof(T)); T *u = malloc(sizeof(T)); \
+  __CPROVER_assume(st && buf && t && u); \
+  g_mw = nondet_size_t(); \
+  st[0] = nondet_size_t(); st[1] = nondet_size_t(); st[2] = GOOD; st[3] = st[0]; \
+  __CPROVER_assume(WF_W(st, bufsz) && st[3] + sizeof(T) <= bufsz); \
+  size_t start = st[0]; \
+  k_write_object_##SUF(st, buf, bufsz, maxlen, t); \
+  if (st[2] == GOOD) { \
+    st[1] = start; \
+    k_read_object_##SUF(st, buf, bufsz, 0, u); \
+    __CPROVER_assert(st[2] == GOOD && *u == *t && st[1] == st[0], "lemma: an object read back equals the object written"); \
+    __CPROVER_assert(0, "canary: object round trip reachable"); \
+  } \
+}
+MS_LEMMA(u64, unsigned long)
+MS_LEMMA(i32, int)
+MS_LEMMA(u8, unsigned char)
